@@ -33,9 +33,16 @@ for d in sorted(glob.glob(os.path.join(V, 'seeded', '*'))):
     det = (m.get('detected_by_check') or {}).get('outcome', 'not run')
     out.append('| %s | %s | %s | %s |' % (os.path.basename(d), first[:170].replace('|', '/'), 'passes' if m.get('confirmed') else 'NOT CONFIRMED', det))
 tab2 = '\n'.join(out)
+out = ['| rewrite | existing suite | `./check` on it |', '|---|---|---|']
+for d in sorted(glob.glob(os.path.join(V, 'harmless', '*'))):
+    mp = os.path.join(d, 'meta.json')
+    if not os.path.exists(mp): continue
+    m = json.load(open(mp))
+    out.append('| %s | %s | %s |' % (os.path.basename(d), 'passes' if 'passed' in m.get('pytest_with_change', '') else m.get('pytest_with_change', ''), m.get('verdict', '')))
+tab3 = '\n'.join(out)
 p = os.path.join(V, 'DESIGN.md')
 s = open(p).read()
-for name, tab in (('STATUS', tab1), ('SEEDS', tab2)):
+for name, tab in (('STATUS', tab1), ('SEEDS', tab2), ('HARMLESS', tab3)):
     a, b = '<!-- AUTOGEN %s BEGIN -->' % name, '<!-- AUTOGEN %s END -->' % name
     if a in s:
         s = s[:s.index(a) + len(a)] + '\n' + tab + '\n' + s[s.index(b):]
